@@ -1,7 +1,8 @@
 /-
   C05 — helper lemmas: a small framework that lifts a relation between the old and the new version of
   one downtime (`StepRel`) through every list transformer of the model (`updateDt`, `map`, the
-  recursion of `triggerDt`, the folds of `triggerAll`/`startTimer`) to every operation.
+  recursion of `triggerDt`, the folds of `triggerAll`/`startTimer`) to every operation, and the fact
+  that no operation changes the list of downtime ids except `add`, which appends a fresh one.
 -/
 import IcingaModel.C05.Model
 import IcingaModel.C05.Spec
@@ -12,20 +13,26 @@ namespace Icinga.C05
 def Both (R : Dt → Dt → Prop) (l l' : List Dt) : Prop :=
   (∀ d ∈ l, ∃ d' ∈ l', R d d') ∧ (∀ d' ∈ l', ∃ d ∈ l, R d d')
 
-/-- What a relation must satisfy for the primitive updates the model performs on a live downtime at
-    time `now`. -/
-structure TrigRel (now : Int) (R : Dt → Dt → Prop) : Prop where
+def AllC (C : Dt → Prop) (l : List Dt) : Prop := ∀ d ∈ l, C d
+
+/-- What a relation must satisfy for what `TriggerDowntime` does to a live downtime at time `now`.
+    `tOK` restricts the trigger times the relation has to cope with, `C` is a context predicate known of
+    every downtime of the list and carried along by `R`. -/
+structure TrigRel (now : Int) (tOK : Int → Prop) (C : Dt → Prop) (R : Dt → Dt → Prop) : Prop where
   refl : ∀ d, R d d
   trans : ∀ a b c, R a b → R b c → R a c
-  mark : ∀ t d, canBeTriggered now d = true → d.removed = false → R d (markTriggered t d)
-  noteT : ∀ d, d.removed = false → R d (noteTriggered d)
+  ctx : ∀ d d', R d d' → C d → C d'
+  trig : ∀ t d, tOK t → C d → canBeTriggered now d = true → d.removed = false → R d (trigSelf t d)
 
-structure StepRel (now : Int) (R : Dt → Dt → Prop) : Prop extends TrigRel now R where
-  noteS : ∀ d, d.fixed = true → canBeTriggered now d = true → d.removed = false → R d (noteStarted d)
-  remove : ∀ d, d.removed = false → R d (removeDt now d)
-  setup : ∀ d, d.removed = false → R d (setupCleanup d)
-  addTrig : ∀ c d, d.removed = false → R d (addTrigger c d)
-  disarm : ∀ d, d.removed = false → R d { d with cleanup := none }
+/-- … and for the other primitive updates of the model. -/
+structure StepRel (now : Int) (tOK : Int → Prop) (C : Dt → Prop) (R : Dt → Dt → Prop) : Prop
+    extends TrigRel now tOK C R where
+  startT : ∀ d, C d → d.fixed = true → canBeTriggered now d = true → d.removed = false → tOK (max d.start d.entry)
+  start : ∀ d, C d → d.fixed = true → canBeTriggered now d = true → d.removed = false → R d (startSelf d)
+  remove : ∀ d, C d → d.removed = false → R d (removeDt now d)
+  setup : ∀ d, C d → d.removed = false → R d (setupCleanup d)
+  addTrig : ∀ c d, C d → d.removed = false → R d (addTrigger c d)
+  disarm : ∀ d, C d → d.removed = false → R d { d with cleanup := none }
 
 theorem both_refl {R : Dt → Dt → Prop} (hr : ∀ d, R d d) (l : List Dt) : Both R l l :=
   ⟨fun d hd => ⟨d, hd, hr d⟩, fun d hd => ⟨d, hd, hr d⟩⟩
@@ -42,165 +49,241 @@ theorem both_trans {R : Dt → Dt → Prop} (ht : ∀ a b c, R a b → R b c →
     obtain ⟨d1, h1, r12⟩ := h12.2 d2 h2
     exact ⟨d1, h1, ht _ _ _ r12 r23⟩
 
-theorem both_map {R : Dt → Dt → Prop} (f : Dt → Dt) (h : ∀ d, R d (f d)) (l : List Dt) :
+theorem allc_of_both {R : Dt → Dt → Prop} {C : Dt → Prop} (hc : ∀ d d', R d d' → C d → C d')
+    {l l' : List Dt} (hb : Both R l l') (ha : AllC C l) : AllC C l' := by
+  intro d' hd'
+  obtain ⟨d, hd, r⟩ := hb.2 d' hd'
+  exact hc d d' r (ha d hd)
+
+theorem both_map {R : Dt → Dt → Prop} (f : Dt → Dt) (l : List Dt) (h : ∀ d ∈ l, R d (f d)) :
     Both R l (l.map f) := by
   constructor
   · intro d hd
-    exact ⟨f d, List.mem_map.mpr ⟨d, hd, rfl⟩, h d⟩
+    exact ⟨f d, List.mem_map.mpr ⟨d, hd, rfl⟩, h d hd⟩
   · intro d' hd
     obtain ⟨d, hd2, rfl⟩ := List.mem_map.mp hd
-    exact ⟨d, hd2, h d⟩
+    exact ⟨d, hd2, h d hd2⟩
 
 theorem live_not_removed {id : Nat} {d : Dt} (h : live id d = true) : d.removed = false := by
   simp [live] at h; exact h.2
 
-theorem both_updateDt {R : Dt → Dt → Prop} (hr : ∀ d, R d d) (f : Dt → Dt)
-    (h : ∀ d, d.removed = false → R d (f d)) (l : List Dt) (id : Nat) :
+theorem live_id {id : Nat} {d : Dt} (h : live id d = true) : d.id = id := by
+  simp [live] at h; exact h.1
+
+theorem both_updateDt {R : Dt → Dt → Prop} (hr : ∀ d, R d d) (f : Dt → Dt) (l : List Dt) (id : Nat)
+    (h : ∀ d ∈ l, d.removed = false → R d (f d)) :
     Both R l (updateDt l id f) := by
   unfold updateDt
   apply both_map
-  intro d
+  intro d hd
   by_cases hl : live id d = true
-  · simp only [hl, if_true]; exact h d (live_not_removed hl)
+  · simp only [hl, if_true]; exact h d hd (live_not_removed hl)
   · simp only [hl]; exact hr d
 
-theorem both_foldl {R : Dt → Dt → Prop} (hr : ∀ d, R d d) (ht : ∀ a b c, R a b → R b c → R a c)
-    {α : Type} (g : List Dt → α → List Dt) (hg : ∀ acc x, Both R acc (g acc x)) (xs : List α) (l : List Dt) :
+theorem both_foldl {R : Dt → Dt → Prop} {C : Dt → Prop} (hr : ∀ d, R d d)
+    (ht : ∀ a b c, R a b → R b c → R a c) (hc : ∀ d d', R d d' → C d → C d')
+    {α : Type} (g : List Dt → α → List Dt) (hg : ∀ acc x, AllC C acc → Both R acc (g acc x))
+    (xs : List α) (l : List Dt) (ha : AllC C l) :
     Both R l (xs.foldl g l) := by
   induction xs generalizing l with
   | nil => exact both_refl hr l
-  | cons x xs ih => exact both_trans ht (hg l x) (ih (g l x))
+  | cons x xs ih =>
+    have h1 := hg l x ha
+    exact both_trans ht h1 (ih (g l x) (allc_of_both hc h1 ha))
 
-theorem both_markG {now : Int} {R : Dt → Dt → Prop} (sr : TrigRel now R) (t : Int) (l : List Dt) (id : Nat) :
-    Both R l (updateDt l id (markTriggeredG now t)) := by
-  apply both_updateDt sr.refl
-  intro d hd
-  unfold markTriggeredG
+section
+variable {now : Int} {tOK : Int → Prop} {C : Dt → Prop} {R : Dt → Dt → Prop}
+
+theorem both_trigG (tr : TrigRel now tOK C R) (t : Int) (ht : tOK t) (l : List Dt) (id : Nat)
+    (ha : AllC C l) : Both R l (updateDt l id (trigSelfG now t)) := by
+  apply both_updateDt tr.refl
+  intro d hd hr
+  unfold trigSelfG
   by_cases hc : canBeTriggered now d = true
-  · simp only [hc, if_true]; exact sr.mark t d hc hd
-  · simp only [hc]; exact sr.refl d
+  · simp only [hc, if_true]; exact tr.trig t d ht (ha d hd) hc hr
+  · simp only [hc]; exact tr.refl d
 
-theorem both_startedG {now : Int} {R : Dt → Dt → Prop} (sr : StepRel now R) (l : List Dt) (id : Nat) :
-    Both R l (updateDt l id (noteStartedG now)) := by
+theorem both_triggerDt (tr : TrigRel now tOK C R) (fuel : Nat) (t : Int) (ht : tOK t) :
+    ∀ (id : Nat) (l : List Dt), AllC C l → Both R l (triggerDt fuel now t id l) := by
+  induction fuel with
+  | zero => intro id l _; simp only [triggerDt]; exact both_refl tr.refl l
+  | succ n ih =>
+    intro id l ha
+    simp only [triggerDt]
+    split
+    · exact both_refl tr.refl l
+    · split
+      · exact both_refl tr.refl l
+      · rename_i d _ _
+        have h1 := both_trigG tr t ht l id ha
+        have h2 : Both R (updateDt l id (trigSelfG now t))
+            (d.triggers.foldl (fun acc c => triggerDt n now t c acc) (updateDt l id (trigSelfG now t))) :=
+          both_foldl tr.refl tr.trans tr.ctx _ (fun acc c hacc => ih c acc hacc) _ _
+            (allc_of_both tr.ctx h1 ha)
+        exact both_trans tr.trans h1 h2
+
+theorem both_cascade (tr : TrigRel now tOK C R) (fuel : Nat) (t : Int) (ht : tOK t) (cs : List Nat)
+    (l : List Dt) (ha : AllC C l) :
+    Both R l (cs.foldl (fun acc c => triggerDt fuel now t c acc) l) :=
+  both_foldl tr.refl tr.trans tr.ctx _ (fun acc c hacc => both_triggerDt tr fuel t ht c acc hacc) _ _ ha
+
+theorem both_triggerAll (tr : TrigRel now tOK C R) (t : Int) (ht : tOK t) (l : List Dt) (ha : AllC C l) :
+    Both R l (triggerAll now t l) := by
+  unfold triggerAll
+  exact both_foldl tr.refl tr.trans tr.ctx _ (fun acc i hacc => both_triggerDt tr _ t ht i acc hacc) _ _ ha
+
+theorem both_startG (sr : StepRel now tOK C R) (l : List Dt) (id : Nat) (ha : AllC C l) :
+    Both R l (updateDt l id (startSelfG now)) := by
   apply both_updateDt sr.refl
-  intro d hd
-  unfold noteStartedG
+  intro d hd hr
+  unfold startSelfG
   by_cases hc : (d.fixed && canBeTriggered now d) = true
   · simp only [hc, if_true]
     simp at hc
-    exact sr.noteS d hc.1 hc.2 hd
+    exact sr.start d (ha d hd) hc.1 hc.2 hr
   · simp only [hc]; exact sr.refl d
 
-theorem both_triggerDt {now : Int} {R : Dt → Dt → Prop} (sr : TrigRel now R) (fuel : Nat) (t : Int) :
-    ∀ (id : Nat) (l : List Dt), Both R l (triggerDt fuel now t id l) := by
-  induction fuel with
-  | zero => intro id l; simp only [triggerDt]; exact both_refl sr.refl l
-  | succ n ih =>
-    intro id l
-    simp only [triggerDt]
-    split
-    · exact both_refl sr.refl l
-    · split
-      · exact both_refl sr.refl l
-      · rename_i d _ _
-        have h1 := both_markG sr t l id
-        have h2 : Both R (updateDt l id (markTriggeredG now t))
-            (d.triggers.foldl (fun acc c => triggerDt n now t c acc) (updateDt l id (markTriggeredG now t))) :=
-          both_foldl sr.refl sr.trans _ (fun acc c => ih c acc) _ _
-        have h3 := both_updateDt sr.refl noteTriggered (fun d hd => sr.noteT d hd)
-          (d.triggers.foldl (fun acc c => triggerDt n now t c acc) (updateDt l id (markTriggeredG now t))) id
-        exact both_trans sr.trans h1 (both_trans sr.trans h2 h3)
+theorem mem_of_findDt {l : List Dt} {id : Nat} {d : Dt} (h : findDt l id = some d) :
+    d ∈ l ∧ live id d = true := by
+  unfold findDt at h
+  exact ⟨List.mem_of_find?_eq_some h, List.find?_some h⟩
 
-theorem both_triggerAll {now : Int} {R : Dt → Dt → Prop} (sr : TrigRel now R) (t : Int) (l : List Dt) :
-    Both R l (triggerAll now t l) := by
-  unfold triggerAll
-  exact both_foldl sr.refl sr.trans _ (fun acc i => both_triggerDt sr _ t i acc) _ _
-
-theorem both_startTimerOne {now : Int} {R : Dt → Dt → Prop} (sr : StepRel now R) (fuel : Nat) (acc : List Dt) (i : Nat) :
-    Both R acc (startTimerOne now fuel acc i) := by
-  unfold startTimerOne
+theorem both_startAt (sr : StepRel now tOK C R) (fuel : Nat) (l : List Dt) (id : Nat) (ha : AllC C l) :
+    Both R l (startAt now fuel l id) := by
+  unfold startAt
   split
-  · exact both_refl sr.refl acc
-  · split
-    · exact both_trans sr.trans (both_startedG sr acc i) (both_triggerDt sr.toTrigRel _ _ _ _)
-    · exact both_refl sr.refl acc
+  · exact both_refl sr.refl l
+  · rename_i d hf
+    split
+    · rename_i hg
+      simp at hg
+      obtain ⟨hm, hl⟩ := mem_of_findDt hf
+      have ht := sr.startT d (ha d hm) hg.1 hg.2 (live_not_removed hl)
+      have h1 := both_startG sr l id ha
+      exact both_trans sr.trans h1
+        (both_cascade sr.toTrigRel fuel _ ht _ _ (allc_of_both sr.ctx h1 ha))
+    · exact both_refl sr.refl l
 
-theorem both_startTimer {now : Int} {R : Dt → Dt → Prop} (sr : StepRel now R) (l : List Dt) :
+theorem both_startTimer (sr : StepRel now tOK C R) (l : List Dt) (ha : AllC C l) :
     Both R l (startTimer now l) := by
   unfold startTimer
-  exact both_foldl sr.refl sr.trans _ (fun acc i => both_startTimerOne sr _ acc i) _ _
+  exact both_foldl sr.refl sr.trans sr.ctx _ (fun acc i hacc => both_startAt sr _ acc i hacc) _ _ ha
 
-theorem both_fireCleanup {now : Int} {R : Dt → Dt → Prop} (sr : StepRel now R) (l : List Dt) :
+theorem both_fireCleanup (sr : StepRel now tOK C R) (l : List Dt) (ha : AllC C l) :
     Both R l (l.map (fireCleanup now)) := by
   apply both_map
-  intro d
+  intro d hd
   unfold fireCleanup
   by_cases hc : cleanupDue now d = true
   · have hr : d.removed = false := by
       simp [cleanupDue] at hc; exact hc.1
     simp only [hc, if_true]
     split
-    · exact sr.remove d hr
-    · exact sr.disarm d hr
+    · exact sr.remove d (ha d hd) hr
+    · exact sr.disarm d (ha d hd) hr
   · simp only [hc]; exact sr.refl d
 
-theorem both_pump {now : Int} {R : Dt → Dt → Prop} (sr : StepRel now R) (st : St) :
+theorem both_pump (sr : StepRel now tOK C R) (st : St) (ha : AllC C st.dts) :
     Both R st.dts (pumpOp st now).dts := by
   unfold pumpOp
   simp only
+  have h1 := both_fireCleanup sr st.dts ha
+  have a1 := allc_of_both sr.ctx h1 ha
   split
-  · exact both_trans sr.trans (both_fireCleanup sr _)
-      (both_trans sr.trans (both_startTimer sr _) (both_fireCleanup sr _))
-  · exact both_fireCleanup sr _
+  · have h2 := both_startTimer sr _ a1
+    have a2 := allc_of_both sr.ctx h2 a1
+    exact both_trans sr.trans h1 (both_trans sr.trans h2 (both_fireCleanup sr _ a2))
+  · exact h1
 
-theorem both_result {now : Int} {R : Dt → Dt → Prop} (sr : StepRel now R) (st : St) (s : Nat) (te : Int) :
+theorem both_result (sr : StepRel now tOK C R) (st : St) (s : Nat) (te : Int) (ht : tOK te)
+    (ha : AllC C st.dts) :
     Both R st.dts (resultOp st s te now).1.dts := by
   unfold resultOp
   split
   · exact both_refl sr.refl _
   · simp only
     split
-    · exact both_triggerAll sr.toTrigRel te _
+    · exact both_triggerAll sr.toTrigRel te ht _ ha
     · exact both_refl sr.refl _
 
-theorem both_remove {now : Int} {R : Dt → Dt → Prop} (sr : StepRel now R) (st : St) (id : Nat) (u : Bool) :
+theorem both_remove (sr : StepRel now tOK C R) (st : St) (id : Nat) (u : Bool) (ha : AllC C st.dts) :
     Both R st.dts (removeOp st id u now).1.dts := by
   unfold removeOp
   split
   · exact both_refl sr.refl _
   · split
     · exact both_refl sr.refl _
-    · exact both_updateDt sr.refl _ (fun d hd => sr.remove d hd) _ _
+    · exact both_updateDt sr.refl _ _ _ (fun d hd hr => sr.remove d (ha d hd) hr)
+
+end
+
+/-- In a list without the id, extended by a fresh downtime, the name denotes the fresh one. -/
+theorem findDt_append_new (l : List Dt) (p : AddP) (now : Int)
+    (h : l.any (fun d => d.id == p.id) = false) :
+    findDt (l ++ [newDt p now]) p.id = some (newDt p now) := by
+  unfold findDt
+  rw [List.find?_append]
+  have : l.find? (live p.id) = none := by
+    apply List.find?_eq_none.mpr
+    intro x hx hl
+    have hid := live_id hl
+    have := List.any_eq_false.mp h x hx
+    simp [hid] at this
+  simp [this, live, newDt]
+
+section
+variable {now : Int} {tOK : Int → Prop} {C : Dt → Prop} {R : Dt → Dt → Prop}
+
+/-- What the operation must supply for `tOK`/`C`. -/
+def OpT (st : St) (tOK : Int → Prop) (C : Dt → Prop) : Op → Prop
+  | .add p now => C (newDt p now) ∧
+      (canBeTriggered now (newDt p now) = true → tOK (max (max p.start now) st.lastStateChange))
+  | .result _ te _ => tOK te
+  | _ => True
 
 /-- The part of `addOp` after the new downtime has been appended. -/
-theorem both_add_tail {now : Int} {R : Dt → Dt → Prop} (sr : StepRel now R) (st : St) (p : AddP)
-    (h : st.dts.any (fun d => d.id == p.id) = false) :
+theorem both_add_tail (sr : StepRel now tOK C R) (st : St) (p : AddP)
+    (h : st.dts.any (fun d => d.id == p.id) = false) (ha : AllC C st.dts)
+    (hop : OpT st tOK C (.add p now)) :
     Both R (st.dts ++ [newDt p now]) (addOp st p now).1.dts := by
+  have ha0 : AllC C (st.dts ++ [newDt p now]) := by
+    intro d hd
+    rcases List.mem_append.mp hd with hm | hm
+    · exact ha d hm
+    · simp at hm; subst hm; exact hop.1
   unfold addOp
   simp only [h]
   have h1 : Both R (st.dts ++ [newDt p now]) (startFlexible st now (newDt p now) (st.dts ++ [newDt p now])) := by
     unfold startFlexible
     split
-    · exact both_triggerDt sr.toTrigRel _ _ _ _
+    · by_cases hc : canBeTriggered now (newDt p now) = true
+      · exact both_triggerDt sr.toTrigRel _ _ (hop.2 hc) _ _ ha0
+      · have hf := findDt_append_new st.dts p now h
+        have : triggerDt ((st.dts ++ [newDt p now]).length + 1) now
+            (max (max (newDt p now).start (newDt p now).entry) st.lastStateChange) (newDt p now).id
+            (st.dts ++ [newDt p now]) = st.dts ++ [newDt p now] := by
+          have hid : (newDt p now).id = p.id := rfl
+          simp only [triggerDt, hid, hf]
+          simp [hc]
+        rw [this]
+        exact both_refl sr.refl _
     · exact both_refl sr.refl _
-  have h2 : ∀ l, Both R l (startFixed now p.id l) := by
-    intro l
-    unfold startFixed
-    split
-    · exact both_refl sr.refl _
-    · split
-      · exact both_trans sr.trans (both_startedG sr l p.id) (both_triggerDt sr.toTrigRel _ _ _ _)
-      · exact both_refl sr.refl _
-  have h3 : ∀ l, Both R l (updateDt l p.id setupCleanup) :=
-    fun l => both_updateDt sr.refl _ (fun d hd => sr.setup d hd) _ _
-  refine both_trans sr.trans h1 (both_trans sr.trans (h2 _) (both_trans sr.trans (h3 _) ?_))
+  have a1 := allc_of_both sr.ctx h1 ha0
+  have h2 := both_startAt sr (startFlexible st now (newDt p now) (st.dts ++ [newDt p now])).length _ p.id a1
+  have a2 := allc_of_both sr.ctx h2 a1
+  have h3 : ∀ l, AllC C l → Both R l (updateDt l p.id setupCleanup) :=
+    fun l hl => both_updateDt sr.refl _ _ _ (fun d hd hr => sr.setup d (hl d hd) hr)
+  have h3' := h3 _ a2
+  have a3 := allc_of_both sr.ctx h3' a2
+  refine both_trans sr.trans h1 (both_trans sr.trans h2 (both_trans sr.trans h3' ?_))
   simp only [Bool.false_eq_true, if_false]
   split
-  · exact both_updateDt sr.refl _ (fun d hd => sr.addTrig _ d hd) _ _
+  · exact both_updateDt sr.refl _ _ _ (fun d hd hr => sr.addTrig _ d (a3 d hd) hr)
   · exact both_refl sr.refl _
 
 /-- Every downtime that exists before an operation has an `R`-successor after it. -/
-theorem step_succ {R : Dt → Dt → Prop} (st : St) (op : Op) (sr : StepRel op.now R) :
+theorem step_succ (st : St) (op : Op) (sr : StepRel op.now tOK C R) (ha : AllC C st.dts)
+    (hop : OpT st tOK C op) :
     ∀ d ∈ st.dts, ∃ d' ∈ (step st op).1.dts, R d d' := by
   cases op with
   | add p now =>
@@ -210,14 +293,15 @@ theorem step_succ {R : Dt → Dt → Prop} (st : St) (op : Op) (sr : StepRel op.
     · refine ⟨d, ?_, sr.refl d⟩
       simp [addOp, h]; exact hd
     · have h' : st.dts.any (fun d => d.id == p.id) = false := by simpa using h
-      exact (both_add_tail sr st p h').1 d (List.mem_append_left _ hd)
-  | result s te now => exact (both_result sr st s te).1
-  | pump now => exact (both_pump sr st).1
-  | remove id u now => exact (both_remove sr st id u).1
+      exact (both_add_tail sr st p h' ha hop).1 d (List.mem_append_left _ hd)
+  | result s te now => exact (both_result sr st s te hop ha).1
+  | pump now => exact (both_pump sr st ha).1
+  | remove id u now => exact (both_remove sr st id u ha).1
 
 /-- Every downtime that exists after an operation is the `R`-successor of one that existed before, or of
     the freshly created one. -/
-theorem step_pred {R : Dt → Dt → Prop} (st : St) (op : Op) (sr : StepRel op.now R) :
+theorem step_pred (st : St) (op : Op) (sr : StepRel op.now tOK C R) (ha : AllC C st.dts)
+    (hop : OpT st tOK C op) :
     ∀ d' ∈ (step st op).1.dts, (∃ d ∈ st.dts, R d d') ∨
       (∃ p, op = .add p op.now ∧ R (newDt p op.now) d') := by
   cases op with
@@ -229,14 +313,22 @@ theorem step_pred {R : Dt → Dt → Prop} (st : St) (op : Op) (sr : StepRel op.
       refine ⟨d', ?_, sr.refl d'⟩
       simpa [addOp, h] using hd'
     · have h' : st.dts.any (fun d => d.id == p.id) = false := by simpa using h
-      obtain ⟨d, hd, r⟩ := (both_add_tail sr st p h').2 d' hd'
+      obtain ⟨d, hd, r⟩ := (both_add_tail sr st p h' ha hop).2 d' hd'
       rcases List.mem_append.mp hd with hm | hm
       · exact Or.inl ⟨d, hm, r⟩
       · right
         refine ⟨p, rfl, ?_⟩
         simp at hm; subst hm; exact r
-  | result s te now => intro d' hd'; exact Or.inl ((both_result sr st s te).2 d' hd')
-  | pump now => intro d' hd'; exact Or.inl ((both_pump sr st).2 d' hd')
-  | remove id u now => intro d' hd'; exact Or.inl ((both_remove sr st id u).2 d' hd')
+  | result s te now => intro d' hd'; exact Or.inl ((both_result sr st s te hop ha).2 d' hd')
+  | pump now => intro d' hd'; exact Or.inl ((both_pump sr st ha).2 d' hd')
+  | remove id u now => intro d' hd'; exact Or.inl ((both_remove sr st id u ha).2 d' hd')
+
+end
+
+/-- For relations that need neither a restriction of the trigger times nor a context. -/
+theorem opT_trivial (st : St) (op : Op) : OpT st (fun _ => True) (fun _ => True) op := by
+  cases op <;> simp [OpT]
+
+theorem allc_trivial (l : List Dt) : AllC (fun _ => True) l := fun _ _ => trivial
 
 end Icinga.C05
